@@ -294,7 +294,19 @@ def run(m: Model, r: Report, tier: str) -> None:
                and isinstance(n.value.slice, ast.Constant) and n.value.slice.value == 1 and adv and ast.unparse(n.value.value) == ast.unparse(adv[0].ast.value.value)]
     r.check(len(pdu_src) == 1, "R4", f"{rad.qualname}#reply-column", "the reply bytes must be taken from column 1 of the matched row (column 0 is the row id)", loc=rad.loc)
     src = ast.unparse(rad.node)
-    r.check("self.state.reset()" in src and src.rstrip().endswith("return None"), "R4", f"{rad.qualname}#null-reply", "a NULL reply must reset the state and yield no response", loc=rad.loc)
+    pcalls = [n for n in ast.walk(rad.node) if isinstance(n, ast.Call) and ast.unparse(n.func) == "service.UDSResponse.parse_dynamic"]
+    r.check(src.rstrip().endswith("return None"), "R4", f"{rad.qualname}#null-reply", "a row without a recorded reply must yield no response", loc=rad.loc)
+    # ... and must leave the state alone: the recording client does not change its state when a request goes unanswered
+    # (ECU._request updates the state only `if response is not None`), so the following rows were logged in the unchanged state
+    ereq_ = m.require_function(f"{ECU}.ECU._request")
+    upd_guard = [n for n in ast.walk(ereq_.node) if isinstance(n, ast.If) and any("self.update_state(" in ast.unparse(b) for b in n.body)]
+    client_keeps = len(upd_guard) == 1 and m.mtext(ereq_, upd_guard[0].test) in ("response is not None", "_L is not None")
+    silent_path_mut = [n for n in walk_no_nested(rad.node) if isinstance(n, ast.Expr) and isinstance(n.value, ast.Call) and ast.unparse(n.value.func).startswith("self.state.")
+                       and not any(n is x for pc in pcalls for t_ in ast.walk(rad.node) if isinstance(t_, ast.If) and any(pc is y for y in ast.walk(t_)) and t_.test is not None
+                                   and "response_pdu" in ast.unparse(t_.test) for b_ in t_.body for x in ast.walk(b_))]
+    r.check(not (client_keeps and silent_path_mut), "R1", f"{rad.qualname}#state-after-unanswered-request",
+            f"the client keeps its state when a request goes unanswered, the replaying server executes {[ast.unparse(x) for x in silent_path_mut]} on a row without a reply: "
+            "rows recorded after a timeout in a non-default session are then looked up in the default session and replayed as silence", loc=rad.loc)
     pcalls = [n for n in ast.walk(rad.node) if isinstance(n, ast.Call) and ast.unparse(n.func) == "service.UDSResponse.parse_dynamic"]
     r.check(len(pcalls) == 1 and "unhexlify(" in ast.unparse(rad.node), "R4", f"{rad.qualname}#client-parser", "recorded bytes must be parsed with the client's dynamic parser", loc=rad.loc)
     # recorded bytes are whatever the ECU sent, including replies the client logged as malformed: the typed parser raises for those, so
